@@ -145,6 +145,29 @@ def q_emit_ts(cfg, den):
                  desc=f"time signature n/{den} with symbolic n through tokenise")
 
 
+def q_two_instances(fl):
+    """vocabularies are per instance: a tokeniser built after another one with a different time-signature range"""
+    def fn(ctx):
+        first = mk((fl, 1, 1, (60, 62), None))
+        second = Tokeniser(num_tracks=1, pitch_range=(60, 62), time_signature_range=(1, 24), flag_running_values=fl[0],
+                           flag_fuse_track=fl[1], flag_fuse_value=fl[2], flag_fuse_velocity=fl[3])
+        want = {f"tsg_{k:02}_08" for k in range(1, 25)}
+        got = {t for t in second.dictionary if t.startswith("tsg_")}
+        ctx.must("second_instance_has_its_own_signature_tokens", got == want)
+        ctx.must("second_instance_size", second.dictionary_size == len(second.dictionary) == len(first.dictionary) + 24 - 15)
+        n = ctx.int("numerator", 1, 30)
+        seqs = [rel_sequence([ts(n, 8), on(0, 60, 64), wait(12), off(0, 60)])]
+        ok, tokens = call(second.tokenise, seqs)
+        if ok:
+            ctx.must("emitted_tokens_in_vocabulary", all(t in second.dictionary for t in tokens), disc="second_instance")
+        else:
+            ctx.must("rejects_only_with_tokenisation_exception", isinstance(tokens, TokenisationException), disc=type(tokens).__name__)
+        return [ok]
+    return Query(f"two_instances/f{''.join(str(int(x)) for x in fl)}", fn,
+                 ["second_instance_has_its_own_signature_tokens", "second_instance_size"],
+                 desc="a second tokeniser with time_signature_range (1,24) built after a default one")
+
+
 REQUIRED = ["emitted_tokens_in_vocabulary", "rejects_only_with_tokenisation_exception"]
 
 
@@ -186,4 +209,6 @@ def queries(tier, seed):
     for den in (2, 4, 8, 16):
         qs.append(q_emit_ts(base, den))
     qs.append(q_emit_ts(two, 4))
+    qs.append(q_two_instances(FLAGS[0]))
+    qs.append(q_two_instances(FLAGS[15]))
     return qs
